@@ -8,6 +8,8 @@ package c13
 import (
 	"encoding/json"
 	"fmt"
+	"github.com/rs/zerolog"
+	"io"
 	"net/http"
 	"sort"
 	"strings"
@@ -32,6 +34,8 @@ type Case struct {
 	// ForwardAuth: the decision service is asked the way a forward-auth proxy asks it (a GET from a trusted peer that
 	// describes the original request in X-Forwarded-Method/-Proto/-Host/-Uri); the other two entry points get the request itself
 	ForwardAuth bool `json:"decision_asked_in_forward_auth_style,omitempty"`
+	// Trace: the services log at trace level
+	Trace bool `json:"log_level_trace,omitempty"`
 }
 
 const forwardAuthPeer = "10.0.0.1:4711"
@@ -48,6 +52,8 @@ var echo = map[string]string{
 	"X-V-Hdr-Lower": `{{ .Request.Header "x-foo" }}`,
 	"X-V-Hdr-Map":   `{{ index .Request.Headers "X-Foo" }}`,
 	"X-V-Cookie":    `{{ .Request.Cookie "c" }}`,
+	"X-V-Xfcc":      `{{ .Request.Header "X-Forwarded-Client-Cert" }}`,
+	"X-V-Authz":     `{{ .Request.Header "Authorization" }}`,
 	"X-V-Body":      `{{ .Request.Body | toJson }}`,
 	"X-V-Url":       `{{ .Request.URL.String }}`,
 }
@@ -118,7 +124,7 @@ var (
 	prefixes = []string{"/a/", "/n/", "/o/", "/cel/", "/dup/", "/cond/", "/s/a%20b/"}
 	ids      = []string{"v1", "v%201", "x%2Fy", "%C3%A4", "100%25", "100%2525"}
 	queries  = []string{"", "q=1&q=2", "q=a%20b"}
-	hdrKinds = []string{"none", "single", "repeated", "lower"}
+	hdrKinds = []string{"none", "single", "repeated", "lower", "xfcc", "authorization"}
 	cookies  = []string{"", "c=1", "c=1; d=2", "c=1; d=2; c=3"}
 	bodies   = []string{"none", "json", "form", "badjson", "json-chunked", "form-chunked"}
 )
@@ -133,6 +139,11 @@ func (cs *Case) req() *hx.Req {
 		r.Header = append(r.Header, [2]string{"X-Foo", "1"}, [2]string{"X-Foo", "2"})
 	case "lower":
 		r.Header = append(r.Header, [2]string{"x-foo", "1"})
+	case "xfcc":
+		// a header that merely looks like the forwarded headers heimdall knows: it is a request header like any other
+		r.Header = append(r.Header, [2]string{"X-Forwarded-Client-Cert", "Hash=abc;Subject=\"CN=client\""})
+	case "authorization":
+		r.Header = append(r.Header, [2]string{"Authorization", "Bearer some-token"})
 	}
 
 	if cs.Cookies != "" {
@@ -258,8 +269,12 @@ func (cs *Case) features(comp string) string {
 		}
 	}
 
-	if strings.Contains(comp, "Hdr") || comp == "X-Cond" {
+	if strings.Contains(comp, "Hdr") || comp == "X-Cond" || comp == "X-V-Xfcc" || comp == "X-V-Authz" {
 		f = append(f, "request-header="+cs.Headers)
+	}
+
+	if cs.Trace && comp != "X-Dup" {
+		f = append(f, "log-level-trace")
 	}
 
 	if strings.Contains(comp, "Body") {
@@ -393,7 +408,7 @@ func cases(quick bool) []Case {
 										continue
 									}
 
-									out = append(out, Case{m, sch, pre + id, q, h, ck, b, false})
+									out = append(out, Case{Method: m, Scheme: sch, Path: pre + id, Query: q, Headers: h, Cookies: ck, Body: b})
 								}
 							}
 						}
@@ -435,8 +450,9 @@ func Check() *engine.Check {
 		ID:    "C13",
 		Level: "exploration",
 		Rule: "full product of logical requests (method x scheme x 6 rules x 4 path ids incl. percent-encoded, encoded slash and UTF-8 x 3 " +
-			"queries x 4 header variants incl. repeated and lower-case x 3 cookie variants x 6 bodies incl. chunked transfer; plus methods DELETE, " +
-			"PROPFIND, QUERY and the decision service asked in forward-auth style by a trusted peer) sent through the three assembled real services " +
+			"queries x 6 header variants incl. repeated, lower-case, X-Forwarded-Client-Cert and Authorization x 3 cookie variants x 6 bodies incl. chunked transfer; plus methods DELETE, " +
+			"PROPFIND, QUERY and the decision service asked in forward-auth style by a trusted peer; requests with a body and credentials also " +
+			"through services logging at trace level) sent through the three assembled real services " +
 			"(decision and proxy handler chains via ServeHTTP on parsed raw requests, Envoy gRPC server over an in-memory connection, recording upstream) " +
 			"loaded with one rule set of real mechanisms (anonymous authenticator, CEL authorizers on captures/method/path, conditional finalizer, " +
 			"header finalizer echoing every request-view component, two finalizers adding the same header, cookie finalizer); oracle: pairwise equality " +
@@ -459,7 +475,7 @@ func Check() *engine.Check {
 	}
 }
 
-func setup() (*hx.Apps, error) {
+func setup(trace bool) (*hx.Apps, error) {
 	mf, err := hx.RealFactory(catalogue())
 	if err != nil {
 		return nil, err
@@ -468,7 +484,12 @@ func setup() (*hx.Apps, error) {
 	conf := &config.Configuration{}
 	conf.Serve.Decision.TrustedProxies = &[]string{"10.0.0.1"}
 
-	apps := hx.NewApps(conf, nil)
+	logger := zerolog.Nop()
+	if trace {
+		logger = zerolog.New(io.Discard).Level(zerolog.TraceLevel)
+	}
+
+	apps := hx.NewAppsWithLogger(conf, nil, logger)
 	if err := apps.Load(mf, ruleSets(apps.Upstream.Host())); err != nil {
 		apps.Close()
 
@@ -479,7 +500,7 @@ func setup() (*hx.Apps, error) {
 }
 
 func run(c *engine.Ctx) {
-	apps, err := setup()
+	apps, err := setup(false)
 	if err != nil {
 		c.Infra("fixture: %v", err)
 
@@ -487,6 +508,16 @@ func run(c *engine.Ctx) {
 	}
 
 	defer apps.Close()
+
+	// the same services logging at trace level (request and response dumps are taken only then)
+	appsT, err := setup(true)
+	if err != nil {
+		c.Infra("fixture: %v", err)
+
+		return
+	}
+
+	defer appsT.Close()
 
 	for i, cs := range cases(c.Quick()) {
 		if !c.Mine(i) {
@@ -499,6 +530,12 @@ func run(c *engine.Ctx) {
 
 		cs := cs
 		judge(c, apps, &cs)
+
+		// requests with a body and credentials once more through the services at trace level
+		if cs.Body != "none" && (cs.Cookies != "" || cs.Headers == "authorization") {
+			cs.Trace = true
+			judge(c, appsT, &cs)
+		}
 	}
 }
 
@@ -510,7 +547,7 @@ func replay(c *engine.Ctx, raw json.RawMessage) {
 		return
 	}
 
-	apps, err := setup()
+	apps, err := setup(cs.Trace)
 	if err != nil {
 		c.Infra("fixture: %v", err)
 
